@@ -548,11 +548,11 @@ pub fn generate_c09(tier: &str, seed: u64, out: &mut Out) {
         }
     }
     // single-entry / single-relation readers: they only accept error-free texts, so take the
-    // texts free of the characters that always produce an error (1 in 3 of them, all the short
+    // texts free of the characters that always produce an error (1 in 2 of them, all the short
     // ones) plus a thin sample of the rest
     for (i, t) in texts.iter().enumerate() {
-        let plausible = !t.contains(['$', '{', '}', '@', 'é', '=', ')', ']']);
-        if t.chars().count() <= 3 || (plausible && i % 3 == 0) || i % 40 == 0 {
+        let plausible = !t.contains(['$', '{', '}', '@', 'é']);
+        if t.chars().count() <= 3 || (plausible && i % 2 == 0) || i % 40 == 0 {
             out.req("rel.entry", &[es(t)]);
             out.req("rel.relation", &[es(t)]);
         }
